@@ -1087,7 +1087,12 @@ class Agent(dbus.service.Object):
             elif major_type == 5:
                 # Map type
                 extmap = cbor2.load(buf)
-                self._recv_ext_map(sock, extmap, conv, timestamp)
+                try:
+                    self._recv_ext_map(sock, extmap, conv, timestamp)
+                except Exception as err:
+                    # one unusable message does not take the rest of the
+                    # datagram with it
+                    self.__logger.error('Ignoring extension map: %s', err)
 
             else:
                 self.__logger.error('Unknown message type with first octet 0x%02x, ignoring remainder of packet', first_octet)
